@@ -840,7 +840,7 @@ def report_failure(ctx: C.Ctx, seed: str, size: int, docs, base, ops, ex: Exec) 
         return e2.failure is not None and e2.failure[0] == len(sub) and e2.failure[1] == what
     pre = list(ops[:idx])
     # keep open ops of handles used later: ddmin works on whole list, handle ops of missing handles are no-ops
-    small = C.ddmin(pre, still, max_tests=60) if pre and still([]) is False else []
+    small = C.ddmin(pre, still, max_tests=25) if pre and still([]) is False else []
     e3 = Exec(docs, base)
     e3.run(small + [last])
     if e3.failure is None or e3.failure[1] != what:
@@ -1105,11 +1105,17 @@ def warm_imports() -> None:
 
 
 def run(ctx: C.Ctx) -> None:
+    import time
     warm_imports()
+    if ctx.tier == "quick":
+        # own, tighter budget than the framework's 150 s: the normal pass needs ~25 s of harness time;
+        # the failing-input search (boost 4) is cut off after 55 s so that even a run with a broken tie
+        # stays around 90 s on an idle machine
+        ctx.deadline = min(ctx.deadline, time.time() + 55.0)
     run_corpus(ctx)
     npools = ctx.n(2, 12)
     for pno in range(npools):
         if not ctx.time_left():
             break
         seed = f"C12/{ctx.seed}/{ctx.boost}/{pno}"
-        run_pool(ctx, seed, ctx.rng.choice([6, 7, 8]), 12 if ctx.tier == "quick" else 40, ctx.rng.choice([14, 20, 26]))
+        run_pool(ctx, seed, ctx.rng.choice([6, 7, 8]), 10 if ctx.tier == "quick" else 40, ctx.rng.choice([14, 20, 26]))
